@@ -50,3 +50,25 @@ def install_sokoban_download_stub() -> None:
         return path
 
     G.hf_hub_download = fake
+
+
+def mirror_obs_wrapper(env: Any) -> Any:
+    """A user-style wrapper (an environment that is itself a jumanji Wrapper): reset and step return the
+    observation with its grid flipped upside down. Used by C13/C14 so that "every environment" includes
+    wrapped ones - a wrapper stack that bypassed it (e.g. by resetting through `unwrapped`) would show."""
+    from jumanji.wrappers import Wrapper
+
+    class MirrorObs(Wrapper):
+        def _flip(self, ts: Any) -> Any:
+            obs = ts.observation
+            return ts.replace(observation=obs._replace(grid=obs.grid[::-1]))
+
+        def reset(self, key: Any) -> Any:
+            s, ts = self._env.reset(key)
+            return s, self._flip(ts)
+
+        def step(self, state: Any, action: Any) -> Any:
+            s, ts = self._env.step(state, action)
+            return s, self._flip(ts)
+
+    return MirrorObs(env)
